@@ -1070,6 +1070,9 @@ def one(ctx, c, label):
         hist_case(ctx, c["entries"], label)
     elif kind == "run":
         run_case(ctx, c["program"], c["rounds"], c["updater"], c["via"], script=c.get("script"), label=label)
+    elif kind == "plate":
+        from c18_plate import plate_case
+        plate_case(ctx, c["program"], ops=c.get("ops", []), label=label)
     else:
         graph_case(ctx, c["program"], ops=c.get("ops", []), label=label)
 
@@ -1104,6 +1107,10 @@ def run(ctx):
     for _ in range(ctx.n(30, 400)):
         n = rng.randint(0, 7)
         hist_case(ctx, [[rng.random() < 0.6, k + 1] for k in range(n)])
+    # array-valued messages, plates, batches, log_norm (harness/c18_plate.py)
+    from c18_plate import run_plate, RULE_PLATE
+    ctx.rule = RULE + RULE_PLATE
+    run_plate(ctx)
 
 
 def replay(ctx, payload):
